@@ -16,7 +16,11 @@ property directly (overlapping send..recv intervals, interleaved frames, a calle
 request, deadlock) and compared with the Lean model's run of the same schedule.  Half of the cases start with the
 client already connected, the others with a client that is not connected yet (where the code before the repair
 `connect-outside-lock` lost replies: Props.C15.connect_race_counterexample; that witness is run first on every check).
-Both lock sites are instrumented when present: `manager._transaction_lock` and `client._connect_lock`."""
+Both lock sites are instrumented when present: `manager._transaction_lock` and `client._connect_lock`.
+The scripted world of a case also says which connection attempts are REFUSED (`create_connection` raises): a caller
+whose own attempt was refused must get ConnectionException, everybody else its own reply, and nobody may be left
+blocked (a lock that is not given back on that path shows up as a deadlock)."""
+import sys
 import threading
 
 import socket as _real_socket
@@ -52,7 +56,7 @@ RULE = ('all schedules (stateless DFS over the runnable threads at every yield p
         '(thorough); non-trivial = a schedule in which some thread was parked on the lock or pre-empted inside a '
         'transaction; distinct by (requests, client state, schedule)')
 
-YIELD_OPS = ('connect', 'open', 'acquire', 'send1', 'send2', 'wait', 'recv', 'release')
+YIELD_OPS = ('connect', 'open', 'acquire', 'flush', 'send1', 'send2', 'wait', 'recv', 'release')
 
 
 class Abort(BaseException):
@@ -307,12 +311,16 @@ class Env:
     """what the shims installed in pymodbus.client.sync talk to during one run"""
     current = None
 
-    def __init__(self, sched, lats):
+    def __init__(self, sched, lats, fail=()):
         self.sched = sched
         self.peer = Peer()
         self.lats = lats            # thread index -> latency of the request it is executing
         self.fresh = {}
         self.clock = 1000.0
+        self.fail = fail            # which create_connection calls are refused: 'all' or a collection of indices
+        self.attempts = 0
+        self.failed = []            # (thread, index of the `open` event) of every refused connection attempt
+        self.scripted = False       # the connect made before the threads start is outside the script
 
 
 class FakeSocket:
@@ -339,6 +347,10 @@ class FakeSocket:
     def setblocking(self, flag):
         env = self.env
         i = env.sched.me()
+        caller = sys._getframe(1).f_code.co_name
+        if caller == '_flush_input':       # `_send`: discard what waits on the socket before the request is written
+            env.sched.yield_('flush')
+            return
         if env.fresh.get(i):
             env.fresh[i] = False
             for _ in range(env.lats.get(i, 0)):
@@ -352,6 +364,8 @@ class FakeSocket:
         return len(self.env.peer.stream[self.conn]) > 0
 
     def recv(self, n):
+        if not self.readable():             # non-blocking socket with nothing waiting
+            raise BlockingIOError(11, 'Resource temporarily unavailable')
         return self.env.peer.read(self.conn, max(int(n), 0))
 
     def close(self):
@@ -371,6 +385,12 @@ class SocketShim:
     def create_connection(self, address, timeout=None, source_address=None):
         env = Env.current
         env.sched.yield_('open')
+        if env.scripted:
+            k = env.attempts
+            env.attempts += 1
+            if env.fail == 'all' or k in env.fail:
+                env.failed.append((env.sched.me(), len(env.sched.events) - 1))
+                raise ConnectionRefusedError(111, 'Connection refused')
         return FakeSocket(env, env.peer.new_conn())
 
 
@@ -434,6 +454,19 @@ class Run:
     pass
 
 
+def world(w):
+    """the scripted world of a case: {'connected': bool, 'fail': [indices of refused connection attempts] | 'all'}"""
+    if isinstance(w, dict):
+        return {'connected': bool(w.get('connected', True)), 'fail': w.get('fail', [])}
+    return {'connected': bool(w), 'fail': []}
+
+
+def world_tag(w):
+    w = world(w)
+    return ('connected' if w['connected'] else 'cold') + ('' if not w['fail'] else ':fail=%s' % (
+        'all' if w['fail'] == 'all' else ','.join(map(str, w['fail']))))
+
+
 def run_schedule(threads, chooser, connected=True):
     """threads: [[req dict...]...]; chooser(step, enabled, ops) -> thread to resume; `connected`: the client is
     connected (by the main thread) before the workers start.
@@ -442,10 +475,12 @@ def run_schedule(threads, chooser, connected=True):
     sched = Scheduler(n)
     lats = {}
     install_shims()
-    env = Env.current = Env(sched, lats)
+    w = world(connected)
+    env = Env.current = Env(sched, lats, w['fail'])
     client = WireClient('192.0.2.1', 502, timeout=1)
-    if connected:
+    if w['connected']:
         client.connect()
+    env.scripted = True
     locklog = []
     mgr = client.transaction
     if hasattr(mgr, '_transaction_lock'):
@@ -514,6 +549,8 @@ def run_schedule(threads, chooser, connected=True):
     out.results = results
     out.marks = marks
     out.locklog = locklog
+    out.failed = list(env.failed)
+    out.attempts = env.attempts
     out.left = dict(stream=[list(x) for x in env.peer.stream], pending=[list(x) for x in env.peer.pending],
                     buf=list(client.framer._buffer), tid=mgr.tid,
                     sock=client.socket.conn if isinstance(client.socket, FakeSocket) else None)
@@ -583,9 +620,18 @@ def check_property(rep, case, run, expected, threads):
         rep.violation('request frames are interleaved on the transport', case,
                       wire=[[w[0], w[1], w[2]] for w in run.wire][:12])
         ok = False
-    elif not run.deadlock:
+    # a caller whose own connection attempt was refused legitimately gets ConnectionException (and sends nothing)
+    refused = set()
+    bounds = {}
+    for (i, k, what, pos) in run.marks:
+        bounds.setdefault((i, k), {})[what] = pos
+    for (i, k), b in bounds.items():
+        lo, hi = b['begin'], b.get('end', len(run.events))
+        if any(ft == i and lo <= fp < hi for ft, fp in run.failed):
+            refused.add((i, k))
+    if contiguous(run.wire) and not run.deadlock:
         frames = [run.wire[i][3] + run.wire[i + 1][3] for i in range(0, len(run.wire) - 1, 2)]
-        want = sum(len(t) for t in threads)
+        want = sum(len(t) for t in threads) - len(refused)
         if len(frames) != want or any(len(f) != 12 for f in frames):
             rep.violation('the frames on the transport are not one whole frame per request', case,
                           frames=len(frames), requests=want)
@@ -598,6 +644,12 @@ def check_property(rep, case, run, expected, threads):
             ok = False
             continue
         for k, (r, e, q) in enumerate(zip(rs, es, reqs)):
+            if (i, k) in refused:
+                if r[1] != {'raised': 'modbusexc'}:
+                    rep.violation('a caller whose connection attempt was refused did not get ConnectionException', case,
+                                  thread=i, k=k, request=q, got=r[1])
+                    ok = False
+                continue
             want = {'tid': r[0], 'unit': q['unit'], 'msg': e}
             if r[1] != want:
                 rep.violation('a caller did not get the reply to its own request', case, thread=i, k=k,
@@ -618,6 +670,10 @@ def model_scope():
         return 'whole'
     if outer == 'connectOnly' and inner == 'whole':
         return 'connectLocked'
+    if outer == 'acquireTryFinally:connectOutsideTry' and inner == 'whole':
+        return 'leakOnFail'          # the client lock is not given back when the connect fails
+    if outer == 'acquireTryFinally' and inner == 'whole':
+        return 'whole'
     if inner == 'whole':
         return 'connectOutside'
     if per:
@@ -626,7 +682,13 @@ def model_scope():
 
 
 def model_op(scope, threads, taken, connected):
-    return {'op': 'sched', 'scope': scope, 'macro': True, 'connected': bool(connected), 'threads': threads, 'sched': taken}
+    w = world(connected)
+    op = {'op': 'sched', 'scope': scope, 'macro': True, 'connected': w['connected'], 'threads': threads, 'sched': taken}
+    if w['fail'] == 'all':
+        op['fail_all'] = True
+    elif w['fail']:
+        op['fail'] = list(w['fail'])
+    return op
 
 
 def impl_view(run):
@@ -757,7 +819,8 @@ def process_batch(ctx, rep, scope, batch):
         return
     ans = ctx.driver.query([model_op(scope, th, run.taken, conn) for th, conn, run, _ in batch])
     for (th, conn, run, how), a in zip(batch, ans):
-        case = {'kind': 'schedule', 'connected': bool(conn), 'threads': th, 'sched': run.taken}
+        w = world(conn)
+        case = {'kind': 'schedule', 'connected': w['connected'], 'fail': w['fail'], 'threads': th, 'sched': run.taken}
         parked = any(op == 'acquire' and t not in en for en, ops in run.points for t, op in ops.items())
         inside = False
         last = None
@@ -765,9 +828,9 @@ def process_batch(ctx, rep, scope, batch):
             if last is not None and t != last[0] and last[1] not in ('release',) and op != 'acquire':
                 inside = True
             last = (t, op)
-        rep.case((th, conn, run.taken), nontrivial=parked or inside,
-                 tag='%s:%dx%s:%s' % (how, len(th), max(len(x) for x in th), 'connected' if conn else 'cold'))
-        rep.sample({'threads': th, 'connected': bool(conn), 'schedule': ''.join(str(t) for t in run.taken),
+        rep.case((th, w, run.taken), nontrivial=parked or inside or bool(run.failed),
+                 tag='%s:%dx%s:%s' % (how, len(th), max(len(x) for x in th), world_tag(w)))
+        rep.sample({'threads': th, 'world': world_tag(w), 'schedule': ''.join(str(t) for t in run.taken),
                     'events': len(run.events), 'parked_on_lock': parked}, cap=4)
         held = check_property(rep, case, run, a['expected'], th)
         rep.compare(case, impl_view(run), model_view(a), 'real threads vs Sched.runSched on the same schedule')
@@ -811,7 +874,7 @@ def run(ctx):
 
     for c in ctx.corpus():
         if c.get('kind') == 'schedule':
-            conn = c.get('connected', True)
+            conn = world(c)
             add(c['threads'], conn, run_schedule(c['threads'], forced(list(c['sched'])), conn), 'corpus')
     flush()
 
@@ -823,10 +886,15 @@ def run(ctx):
             ((2, 2, 2), 2), ((1, 1, 1, 1), 2), ((2, 1, 1, 1), 1), ((3, 3, 2), 1)]
     if not ctx.quick:
         base = [(sh, 3 * k) for sh, k in base] + [((3, 3, 3), 2), ((2, 2, 2, 2), 2), ((3, 2, 2, 1), 2), ((3, 3, 3, 1), 1)]
+    # connection attempts that are refused (k-th `create_connection` of the run): only a cold client ever connects
+    scripts = [[0], [1], [0, 1], 'all', [0, 2], [1, 2], [2]]
     plan = []
-    for sh, k in base:
+    for n_, (sh, k) in enumerate(base):
         plan.append((sh, True, k - k // 2))
         plan.append((sh, False, max(1, k // 2)))
+        plan.append((sh, {'connected': False, 'fail': scripts[n_ % len(scripts)]}, 1))
+        if len(sh) == 2 or not ctx.quick:
+            plan.append((sh, {'connected': False, 'fail': scripts[(n_ + 3) % len(scripts)]}, 1))
     exhaustive = True
     for shape, conn, ncases in plan:
         for _ in range(ncases):
@@ -845,7 +913,7 @@ def run(ctx):
             if not status.get('complete') and not enough():
                 exhaustive = False
                 rep.hist['dfs-truncated:%s' % 'x'.join(map(str, shape))] += 1
-            rep.hist['dfs-cases:%s:%s' % ('x'.join(map(str, shape)), 'connected' if conn else 'cold')] += 1
+            rep.hist['dfs-cases:%s:%s' % ('x'.join(map(str, shape)), world_tag(conn))] += 1
     flush()
     rep.exhaustive = exhaustive and not enough()
 
@@ -856,7 +924,9 @@ def run(ctx):
             break
         shape = tuple(rng.randrange(1, 4) for _ in range(rng.randrange(2, 5)))
         th = gen_threads(rng, shape)
-        conn = rng.random() < 0.7
+        conn = rng.random() < 0.6
+        if not conn and rng.random() < 0.6:
+            conn = {'connected': False, 'fail': rng.choice(scripts + [[rng.randrange(4)], [0, 1, 2]])}
         add(th, conn, random_run(th, rng, conn), 'random')
     flush()
 
@@ -867,7 +937,7 @@ def run(ctx):
         for shape in shapes:
             if enough() or left() < 15 or total[0] >= cap:
                 break
-            for conn in (True, True, False):
+            for conn in (True, False, {'connected': False, 'fail': scripts[len(shape) % len(scripts)]}):
                 th = gen_threads(rng, shape, maxlat=1)
                 budget = min(cap - total[0], 6000)
                 if budget <= 0 or left() < 15:
@@ -887,7 +957,7 @@ def replay(ctx, payload):
     c = payload['case']
     if c.get('kind') != 'schedule':
         return None
-    conn = c.get('connected', True)
+    conn = world(c)
     r = run_schedule(c['threads'], forced(list(c['sched'])), conn)
     scope = model_scope()
     a = ctx.driver.query([model_op(scope, c['threads'], r.taken, conn)])[0]
